@@ -139,6 +139,7 @@ def _init_worker():
 
 def _chunk(args):
     prop, tier, seed, start, count, want_events = args
+    idx = start
     try:
         sim = get_sim(prop)
         hard = getattr(sim, "RUN_TIMEOUT", 60) + 240      # last resort if the SIGALRM watchdog cannot interrupt (a C call that never returns)
@@ -173,7 +174,7 @@ def _chunk(args):
         out["digest"] = out["digest"].hexdigest()
         return out
     except BaseException as e:  # harness problem inside a worker
-        return {"start": start, "error": f"{type(e).__name__}: {e}\n{traceback.format_exc()}"}
+        return {"start": start, "error": f"[run {idx}] {type(e).__name__}: {e}\n{traceback.format_exc()}"}
     finally:
         faulthandler.cancel_dump_traceback_later()
 
